@@ -19,8 +19,8 @@ type c13Case struct {
 	P1, P2 int    // indexes into c13Patterns
 	Flavor string // plain | guard | throw-aen | throw-aeb
 	Rep    string // go | json | yaml-jsccast | yaml-v2
-	Syntax string // none | json
-	Comp   string // once | twice-force | twice-noforce | reload
+	Syntax string // none | json | explicit-none (patternSyntax: "none" written out)
+	Comp   string // once | twice-force | twice-noforce | reload | reload-yaml
 	Bad    string // "" | unknown-interpreter | unknown-guard-interpreter | unknown-branchtype | unknown-patternsyntax
 }
 
@@ -72,6 +72,9 @@ func c13Load(cs c13Case) (*core.Spec, error) {
 	var spec *core.Spec
 	if cs.Rep == "go" {
 		spec = as.Raw()
+		if cs.Syntax == "explicit-none" {
+			spec.PatternSyntax = "none"
+		}
 		if jsonPats {
 			spec.PatternSyntax = "json"
 			for _, n := range spec.Nodes {
@@ -106,6 +109,13 @@ func c13Load(cs c13Case) (*core.Spec, error) {
 	doc, ok := as.Doc(format, jsonPats)
 	if !ok {
 		return nil, fmt.Errorf("not renderable")
+	}
+	if cs.Syntax == "explicit-none" {
+		if format == "json" {
+			doc["patternSyntax"] = "none"
+		} else {
+			doc["patternsyntax"] = "none"
+		}
 	}
 	nodes := doc["nodes"].(map[string]interface{})
 	switch cs.Bad {
@@ -164,6 +174,19 @@ func c13Compile(cs c13Case, spec *core.Spec) (*core.Spec, string, error) {
 		}
 		if err := s2.Compile(ctx, nil, true); err != nil {
 			return nil, "", fmt.Errorf("reloaded spec does not compile: %v", err)
+		}
+		return s2, "", nil
+	case "reload-yaml":
+		ys, err := yaml2.Marshal(spec)
+		if err != nil {
+			return nil, "", fmt.Errorf("compiled spec does not serialise to YAML: %v", err)
+		}
+		s2 := &core.Spec{}
+		if err := yaml2.Unmarshal(ys, s2); err != nil {
+			return nil, "", fmt.Errorf("YAML-serialised spec does not load: %v", err)
+		}
+		if err := s2.Compile(ctx, nil, true); err != nil {
+			return nil, "", fmt.Errorf("YAML-reloaded spec does not compile: %v", err)
 		}
 		return s2, "", nil
 	}
@@ -266,7 +289,7 @@ func C13(c *vh.Ctx) {
 		return
 	}
 	c.Bound("message_sequence_max", maxLen)
-	c.Rule("specs = (first pattern, second pattern) over 12 JSON shapes (map with variable, map constant, array, number, bool, bare string, bare variable, nested, numeric-looking string, keyword-looking string, array in array in map, maps inside nested arrays) x flavour {plain, guarded, throwing action + ActionErrorNode, + ActionErrorBranches}; each rendered as Go structures / JSON / YAML via jsccast / YAML via yaml.v2 x pattern syntax {inline, json text} x compile variant {once, twice forced, twice unforced, compile-serialise-reload-compile}; behaviour = full tree of walks over all message sequences up to the bound over 13 messages, compared with the Go-structure/inline/once rendering; plus 4 unknown-interpreter/branch-type/pattern-syntax variants per representation that must fail to compile. non-trivial = every case (each is a distinct rendering).")
+	c.Rule("specs = (first pattern, second pattern) over 12 JSON shapes (map with variable, map constant, array, number, bool, bare string, bare variable, nested, numeric-looking string, keyword-looking string, array in array in map, maps inside nested arrays) x flavour {plain, guarded, throwing action + ActionErrorNode, + ActionErrorBranches}; each rendered as Go structures / JSON / YAML via jsccast / YAML via yaml.v2 x pattern syntax {inline, json text, inline with patternSyntax none written out} x compile variant {once, twice forced, twice unforced, compile-serialise(JSON)-reload-compile, compile-serialise(YAML, yaml.v2)-reload-compile}; behaviour = full tree of walks over all message sequences up to the bound over 13 messages, compared with the Go-structure/inline/once rendering; plus 4 unknown-interpreter/branch-type/pattern-syntax variants per representation that must fail to compile. non-trivial = every case (each is a distinct rendering).")
 	reps := []string{"go", "json", "yaml-jsccast", "yaml-v2"}
 	var idx uint64
 	for p1 := range c13Patterns {
@@ -283,8 +306,8 @@ func C13(c *vh.Ctx) {
 					continue
 				}
 				for _, rep := range reps {
-					for _, syn := range []string{"none", "json"} {
-						for _, comp := range []string{"once", "twice-force", "twice-noforce", "reload"} {
+					for _, syn := range []string{"none", "json", "explicit-none"} {
+						for _, comp := range []string{"once", "twice-force", "twice-noforce", "reload", "reload-yaml"} {
 							if rep == "go" && syn == "none" && comp == "once" {
 								continue
 							}
